@@ -26,6 +26,7 @@ import (
 	"sync"
 	"testing"
 	"testing/synctest"
+	"time"
 
 	"github.com/magisterquis/curlrevshell/internal/iobroker"
 	"github.com/magisterquis/curlrevshell/lib/opshell"
@@ -489,6 +490,8 @@ func runCase(c map[string]any) (steps []map[string]any) {
 			}
 		case "shutdown":
 			dcancel()
+		case "sleep": /* time passes (virtual clock of the bubble): whatever timers the broker has armed fire */
+			time.Sleep(time.Duration(vint(op["ms"], 1000)) * time.Millisecond)
 		case "drain": /* handled by collect: take n items from the operator channel */
 		}
 		steps = append(steps, collect(op))
